@@ -119,10 +119,9 @@ def main(argv=None) -> int:
         EVID.mkdir(exist_ok=True)
         ev = verdict.evidence(mod, prop, tier, seed, agg)
         (EVID / f"{prop}.json").write_text(json.dumps(ev, indent=1, sort_keys=False) + "\n")
-    # clean scratch
-    for f in tmp.iterdir():
-        f.unlink()
-    tmp.rmdir()
+    # clean scratch (worker cwds included)
+    import shutil
+    shutil.rmtree(tmp, ignore_errors=True)
     return code
 
 
@@ -134,7 +133,15 @@ def replay(mod, prop: str, path: str) -> int:
     mon = Monitor(prop)
     mon.begin_case(rec.get("index", -1), case)
     from .worker import run_one
-    run_one(mod, case, mon)
+    import shutil
+    home = os.getcwd()
+    scratch = tempfile.mkdtemp(prefix=f"pvm_cwd_{prop}_")
+    os.chdir(scratch)
+    try:
+        run_one(mod, case, mon)
+    finally:
+        os.chdir(home)
+        shutil.rmtree(scratch, ignore_errors=True)
     r = mon.end_case()
     print(json.dumps({"case": case, "violations": r["violations"],
                       "inconclusive": r["inconclusive"]}, indent=1, default=str)[:6000])
